@@ -132,6 +132,14 @@ class Mask:
         self.selects_nonfinite = selects_nonfinite
 
 
+CELL_WATCH = [None]  # callable(list of cells about to be written) installed by a rule that watches caller-owned arrays (C20)
+
+
+def _cells_written(cells):
+    if CELL_WATCH[0] is not None:
+        CELL_WATCH[0](cells)
+
+
 class Cell:
     """One element slot of an array buffer.  Views (basic slices, rows, reshape, transpose, ravel, iteration over rows,
     asarray) share the Cells of their base, so a store through any of them is seen by all - as with numpy memory."""
@@ -159,7 +167,8 @@ def _contiguous(cells):
 
 
 def _unwrap_cells(c):
-    return [_unwrap_cells(x) for x in c] if isinstance(c, list) else c.v
+    # what an array holds are machine numbers: numpy-scalar-ness belongs to a value taken out element-wise, not to the slot
+    return [_unwrap_cells(x) for x in c] if isinstance(c, list) else py_scalar(c.v)
 
 
 class Arr:
@@ -201,6 +210,7 @@ class Arr:
                 c.v = d
 
         if rec(self.cells, new):
+            _cells_written(self.flat_cells())
             put(self.cells, new)
         else:
             self.cells = _wrap_cells(new)  # shape change (numpy would refuse): new buffer
@@ -414,18 +424,60 @@ class NpFrac(Fraction):
     """A float that came out of a numpy array element-wise (np.float64)."""
 
 
+class NpRat(Rat):
+    """A symbolic number that came out of a numpy array or a numpy function (np.float64): arithmetic with it stays numpy-typed and a
+    comparison with it yields np.bool_, not a Python bool (`np.True_ is True` is False)."""
+
+    __slots__ = ()
+
+    @staticmethod
+    def of(r):
+        o = object.__new__(NpRat)
+        o.n, o.d = r.n, r.d
+        return o
+
+    def plain(self):
+        o = object.__new__(Rat)
+        o.n, o.d = self.n, self.d
+        return o
+
+
+class NpBool(int):
+    """np.bool_: truthy / falsy and equal to the Python bool, but not identical to True / False and not an instance of bool."""
+
+    def __repr__(self):
+        return f"np.bool_({bool(self)})"
+
+
 def np_scalar(x):
-    if isinstance(x, bool) or isinstance(x, (NpInt, NpFrac)):
+    if isinstance(x, (NpInt, NpFrac, NpRat, NpBool)):
         return x
+    if isinstance(x, bool):
+        return NpBool(x)
     if isinstance(x, int):
         return NpInt(x)
     if type(x) is Fraction:
         return NpFrac(x)
+    if type(x) is Rat:
+        return NpRat.of(x)
     return x
 
 
 def is_np_scalar(x):
-    return isinstance(x, (NpInt, NpFrac))
+    return isinstance(x, (NpInt, NpFrac, NpRat, NpBool))
+
+
+def py_scalar(x):
+    """float(x) / int(x) / bool(x) / x.item() / x.tolist(): the plain Python value of a numpy scalar."""
+    if isinstance(x, NpBool):
+        return bool(x)
+    if isinstance(x, NpInt):
+        return int(x)
+    if isinstance(x, NpFrac):
+        return Fraction(x)
+    if isinstance(x, NpRat):
+        return x.plain()
+    return x
 
 
 def num_norm(v):
@@ -435,7 +487,11 @@ def num_norm(v):
     if isinstance(v, Rat):
         c = v.const_value()
         if c is not None:
+            if isinstance(v, NpRat):
+                return NpInt(int(c)) if (isinstance(c, int) or c.denominator == 1) else NpFrac(c)
             v = c
+    if isinstance(v, NpFrac):
+        return NpInt(int(v)) if v.denominator == 1 else v
     if isinstance(v, Fraction) and v.denominator == 1:
         return int(v)
     return v
@@ -733,6 +789,7 @@ class Evaluator:
                 return OpaqueObj("dtype")
             if attr == "fill":
                 def fill(v):
+                    _cells_written(obj.flat_cells())
                     for c_ in obj.flat_cells():
                         c_.v = v
                 return _NativeFn(fill)
@@ -746,8 +803,16 @@ class Evaluator:
         if getattr(obj, "__yadsa_native__", False):
             v = getattr(obj, attr)
             return _NativeFn(v) if callable(v) else v
-        if isinstance(obj, (int, Fraction, Rat)) and attr in ("tolist", "ndim"):
-            return _NativeFn(lambda: obj) if attr == "tolist" else 0
+        if isinstance(obj, (int, Fraction, Rat)) and attr in ("tolist", "ndim", "item", "real", "imag", "conjugate", "dtype"):
+            if attr in ("tolist", "item"):
+                return _NativeFn(lambda *a: py_scalar(obj))
+            if attr in ("real", "conjugate"):
+                return obj if attr == "real" else _NativeFn(lambda: obj)
+            if attr == "imag":
+                return 0
+            if attr == "dtype":
+                return OpaqueObj("dtype")
+            return 0
         if isinstance(obj, FuncVal):
             if attr == "__name__":
                 return obj.finfo.name
@@ -1201,7 +1266,10 @@ class Evaluator:
         h = self.ext_calls.get(d) or _EXT_CALLS.get(d)
         if h is not None:
             self.current_call_node = node
-            return h(self, *args, **kwargs)
+            r = h(self, *args, **kwargs)
+            if d.startswith("numpy.") and isinstance(r, (int, Fraction, Rat)) and not isinstance(r, bool) and d not in _NUMPY_PY_RESULTS:
+                return np_scalar(r)  # numpy functions return numpy scalars, also for Python arguments
+            return r
         top = d.split(".")[0]
         if top in ("LeProHQ", "adani"):
             self.__dict__.setdefault("opaque_ext_log", []).append((d, tuple(args), node))  # rules audit the literal arguments (C16.ext)
@@ -1221,6 +1289,7 @@ class Evaluator:
         return None
 
     def exec_stmt(self, s, env):
+        self.current_stmt = s
         if isinstance(s, ast.Expr):
             if isinstance(s.value, ast.Constant):
                 return None
@@ -1727,7 +1796,8 @@ class Evaluator:
                 return v._map(lambda x: num_norm(-_r(x)))
             if is_inf(v) or isinstance(v, Cx):
                 return -v
-            return num_norm(-_r(v)) if isinstance(v, Rat) else -v
+            r_ = num_norm(-_r(v)) if isinstance(v, Rat) else -v
+            return np_scalar(r_) if is_np_scalar(v) else r_
         if isinstance(n.op, ast.UAdd):
             return v
         if isinstance(n.op, ast.Invert):
@@ -1753,6 +1823,12 @@ class Evaluator:
     _DUNDER = {ast.Add: "add", ast.Sub: "sub", ast.Mult: "mul", ast.Div: "truediv", ast.MatMult: "matmul", ast.Pow: "pow"}
 
     def binop(self, op, a, b):
+        r = self._binop(op, a, b)
+        if (is_np_scalar(a) or is_np_scalar(b)) and isinstance(r, (int, Fraction, Rat)) and not isinstance(r, bool):
+            return np_scalar(r)  # arithmetic with a numpy scalar gives a numpy scalar
+        return r
+
+    def _binop(self, op, a, b):
         if isinstance(a, Arr0):
             a = num_norm(a)
         if isinstance(b, Arr0):
@@ -1897,16 +1973,26 @@ class Evaluator:
 
     def e_Compare(self, n, env):
         left = self.eval(n.left, env)
+        res = True
         for op, rn in zip(n.ops, n.comparators):
             right = self.eval(rn, env)
-            if not self.compare(op, left, right, n):
-                return False
+            res = self.compare(op, left, right, n)
+            if not res:
+                return res
             left = right
-        return True
+        return res
 
     def compare(self, op, a, b, node):
+        r = self._compare(op, a, b, node)
+        if isinstance(r, bool) and not isinstance(op, (ast.Is, ast.IsNot, ast.In, ast.NotIn)) and (is_np_scalar(a) or is_np_scalar(b)):
+            return NpBool(r)  # a comparison with a numpy scalar yields np.bool_
+        return r
+
+    def _compare(self, op, a, b, node):
         if isinstance(op, (ast.Is, ast.IsNot)) and (isinstance(a, Arr0) or isinstance(b, Arr0)):
             return (a is b) if isinstance(op, ast.Is) else (a is not b)
+        if isinstance(op, (ast.Is, ast.IsNot)) and (isinstance(a, NpBool) or isinstance(b, NpBool)):
+            return (a is b) if isinstance(op, ast.Is) else (a is not b)  # np.True_ is not the singleton True
         a, b = num_norm(a), num_norm(b)
         if isinstance(op, ast.Is):
             return a is b or (a is None and b is None)
@@ -2484,7 +2570,7 @@ def _arr_index(o, k):
             raise Raised("IndexError", f"index {k0} is out of bounds for axis with size {len(d)}")
 
     res = rec(d, k)
-    return Arr.view(res) if isinstance(res, list) else res.v
+    return Arr.view(res) if isinstance(res, list) else np_scalar(res.v)
 
 
 def _depth(x):
@@ -2564,6 +2650,9 @@ def _arr_store(o, k, v, node=None):
         else:
             put(d, k0, rest, val)
 
+    if CELL_WATCH[0] is not None:
+        sel = _arr_index(o, k)
+        _cells_written(sel.flat_cells() if isinstance(sel, Arr) else [c for c in o.flat_cells()])
     rec(o.cells, ks, val)
 
 
@@ -2606,14 +2695,14 @@ def _b_isinstance(v, t):
 
 
 def _b_float(v=0):
-    v = num_norm(v)
+    v = py_scalar(num_norm(v))
     if isinstance(v, str):
         return num_norm(Fraction(v))
     return v
 
 
 def _b_int(v=0):
-    v = num_norm(v)
+    v = py_scalar(num_norm(v))
     if isinstance(v, (ExtVal, OpaqueObj)):
         return OpaqueObj("int()")
     if isinstance(v, Rat):
@@ -2913,6 +3002,7 @@ NARROW_DTYPES = {"numpy.float32", "numpy.float16", "numpy.single", "numpy.half",
                  "float32", "float16", "f4", "f2", "int", "i8", "i4", "int32", "int64"}
 
 
+_NUMPY_PY_RESULTS = {"numpy.ndim", "numpy.size", "numpy.shape", "numpy.isscalar", "numpy.allclose", "numpy.array_equal", "numpy.iterable", "numpy.searchsorted_py"}
 _SAME_DTYPE = (None, "float", "float64", "double", "numpy.float64", "numpy.float_", "numpy.double", "numpy.floating")
 
 
